@@ -123,7 +123,7 @@ def run_property(pid, tier, seed):
                 inconclusive.append('kani group %s: %s' % (e['group'], r.get('reason', '')))
             checker_cmds.append(r.get('cmd', ''))
             for h in r.get('harnesses', []):
-                ob = {'id': h['obligation'], 'fn': h.get('function', ''), 'kind': 'kani-contract', 'engine': 'kani/cbmc',
+                ob = {'id': h['obligation'] + (('@' + e['variant']) if e.get('variant') else ''), 'fn': h.get('function', ''), 'kind': 'kani-contract', 'engine': 'kani/cbmc',
                       'status': h['status'], 'text': h.get('text', ''), 'unit': e['group'], 'harness': h['name'],
                       'time_s': h.get('time_s'), 'checks': h.get('checks'), 'detail': h.get('detail', ''),
                       'rendered': h.get('rendered', ''), 'playback': h.get('playback'), 'bounds': h.get('bounds')}
@@ -198,7 +198,8 @@ def run_property(pid, tier, seed):
     needs_contract = {}
     for kind, e, r in results:
         if kind == 'verus' and r.gen is not None:
-            nc = [a['item'] for a in r.gen.auto_items if not a['autospec'] and ' fn ' not in a['item'] and '::' in a['item'] or (not a['autospec'] and a['item'].startswith(('fn ', 'impl ')))]
+            # any item pulled in by the dependency closure means the code was restructured since the contracts were written
+            nc = [a['item'] + ('' if a['autospec'] else ' (no contract)') for a in r.gen.auto_items]
             if nc:
                 needs_contract[e['unit']] = nc
     for o in native_obs:
@@ -223,7 +224,7 @@ def run_property(pid, tier, seed):
         res = native_res.get(id(o))
         if (res is None or res.get('status') not in ('fail', 'crash')) and not o.get('playback') and o.get('unit') in needs_contract:
             # the failing proof involves a new helper function that has no contract yet: "needs contract", not a bug
-            inconclusive.append('obligation %s no longer proved, but unit %s pulled in uncontracted new helper(s) %s and no failing input was found: needs-contract' % (o['id'], o['unit'], needs_contract[o['unit']]))
+            inconclusive.append('obligation %s no longer proved, but unit %s pulled in new helper item(s) %s (restructured code) and the native search found no failing input: needs-contract' % (o['id'], o['unit'], needs_contract[o['unit']]))
             refuted.remove(o)
     for o in refuted:
         res = native_res.get(id(o))
